@@ -380,7 +380,7 @@ func exploreCache(stream string, cfg cacheCfg, quiet time.Duration, limit int, o
 	var stack []level
 	start := len(*out)
 	for {
-		if (limit > 0 && len(*out)-start >= limit) || stuckRuns >= 6 {
+		if (limit > 0 && len(*out)-start >= limit) || stuckRuns >= 3 {
 			return
 		}
 		*runs++
